@@ -40,7 +40,7 @@ class Prop(CoreProp):
     checks = ["C11"]
     scheds = ["eager"]
     tiers = {"quick": {"runs": 600, "selftest_runs": 4}, "thorough": {"runs": 12000, "selftest_runs": 32}}
-    feat = {"n_conflicts": (0, 3), "prio": True, "n_before": (0, 2), "rdep": True, "p_fwd": 0.2, "p_nested": 0.25, "p_ctrl": 0.45, "p_nonex": 0.35}
+    feat = {"n_conflicts": (0, 3), "prio": True, "n_before": (0, 2), "rdep": True, "p_fwd": 0.2, "p_nested": 0.25, "p_ctrl": 0.45, "p_nonex": 0.35, "p_self_conflict_excl": 0.6}
     rule = ("one run = one generated program; half of the runs keep it well-formed (must elaborate), the other half inject exactly one "
             "defect chosen by the seed from {double call of an exclusive method on a non-exclusive path (same body / two chains / "
             "parallel Ifs / calls that are only disabled by enable_call), method calling itself (directly / through a chain / through "
@@ -79,7 +79,8 @@ class Prop(CoreProp):
         return f
 
     def violation_class(self, feats):
-        return {"kind": feats["kind"], "inject": feats.get("inject")}
+        return {"kind": feats["kind"], "inject": feats.get("inject"), "self_conflict": feats.get("self_conflict"),
+                "self_conflict_prioritised": feats.get("self_conflict_prioritised")}
 
     def shrink_cfg(self, cfg):
         if cfg.get("inject"):
